@@ -278,7 +278,7 @@ func (x *X) localResolver(fr *Frame, pos token.Pos, extra map[string]types.Type)
 			if _, ok := vars[name]; ok {
 				continue
 			}
-			if cell := fr.cellAt(x, v.Pos()); cell != nil {
+			if cell := fr.cellAt(x, v); cell != nil {
 				if _, ok := st.mem[cell.key]; ok || cell.kind != pkLocal {
 					val := x.load(st, cell)
 					if c, ok := x.closures[val.S]; ok {
@@ -302,17 +302,26 @@ func (x *X) localResolver(fr *Frame, pos token.Pos, extra map[string]types.Type)
 }
 
 // cellAt finds the memory cell of the local variable declared at pos.
-func (fr *Frame) cellAt(x *X, pos token.Pos) *PtrV {
-	for v, sv := range fr.vals {
-		a, ok := v.(*ssa.Alloc)
-		if !ok || a.Pos() != pos {
+func (fr *Frame) cellAt(x *X, v *types.Var) *PtrV {
+	var best *PtrV
+	bestName := ""
+	for val, sv := range fr.vals {
+		a, ok := val.(*ssa.Alloc)
+		if !ok || a.Pos() != v.Pos() {
+			continue
+		}
+		// the implicit variables of a type switch share one position: match the type
+		el := a.Type().Underlying().(*types.Pointer).Elem()
+		if !types.Identical(el, v.Type()) {
 			continue
 		}
 		if p, ok := sv.(*PtrV); ok {
-			return p
+			if best == nil || a.Name() < bestName {
+				best, bestName = p, a.Name()
+			}
 		}
 	}
-	return nil
+	return best
 }
 
 func (x *X) entryVars(fr *Frame) map[string]SV {
@@ -329,11 +338,11 @@ func (x *X) entryVars(fr *Frame) map[string]SV {
 // loops
 
 type loopRT struct {
-	li       *loopInfo
-	pre      *State
-	head     *State
-	variants []Term
-	invs     []*Clause
+	li        *loopInfo
+	pre       *State
+	head      *State
+	variants  []Term
+	invs      []*Clause
 	backEdges int
 }
 
@@ -557,6 +566,14 @@ func (x *X) havocLoop(fr *Frame, li *loopInfo, head, pre *State) {
 			if strings.HasSuffix(k, ":count") {
 				x.vc.assume(x.ile(x.get(pre, k), head.mem[k]))
 			}
+			if i := strings.Index(k, ":first:"); i > 0 {
+				// the first-call trace is written once: a loop cannot change
+				// it when the callee had been called before the loop
+				ck := k[:i] + ":count"
+				if _, ok := x.keys[ck]; ok {
+					head.mem[k] = mkIte(x.ile(x.ic(1), x.get(pre, ck)), x.get(pre, k), head.mem[k])
+				}
+			}
 		}
 		dk := x.ctxDoneKey()
 		nd := x.vc.fresh("ctxDone", SBool)
@@ -770,6 +787,18 @@ func verifyFunction(prog *ssa.Program, db *ContractDB, fn *ssa.Function, c *Cont
 			if ok {
 				x.vc.assume(t)
 				reqs = append(reqs, t)
+			}
+		}
+	}
+	if c != nil {
+		for _, cl := range c.Assumes {
+			env := &specEnv{x: x, st: st, old: nil, vars: vars, fr: fr}
+			x.pure++
+			t, ok := x.evalClause(cl, fn, env, resolve)
+			x.pure--
+			if ok {
+				x.vc.assume(t)
+				x.enc.assumption("ASSUMED data-structure invariant at entry of " + name + " (" + cl.Label + "): " + cl.Text)
 			}
 		}
 	}
@@ -1014,7 +1043,9 @@ func (x *X) defaultEnsures(fn *ssa.Function) *Contract {
 
 func replaceIdent(s, from, to string) string {
 	var b strings.Builder
-	isId := func(c byte) bool { return c == '_' || c >= 'a' && c <= 'z' || c >= 'A' && c <= 'Z' || c >= '0' && c <= '9' }
+	isId := func(c byte) bool {
+		return c == '_' || c >= 'a' && c <= 'z' || c >= 'A' && c <= 'Z' || c >= '0' && c <= '9'
+	}
 	for i := 0; i < len(s); {
 		if strings.HasPrefix(s[i:], from) && (i == 0 || !isId(s[i-1]) && s[i-1] != '.') && (i+len(from) == len(s) || !isId(s[i+len(from)])) {
 			b.WriteString(to)
